@@ -142,6 +142,16 @@ type Specs struct {
 	Macros    map[string]*Macro
 	// GlobalFacts: heap key of a dependency's package-level variable -> predicate assumed of every value read from it
 	GlobalFacts map[string]string
+	// Census: per package, the functions known to range over a map without a determinism proof (name -> number of
+	// map ranges). Any other function of the package that ranges over a map must carry `opt maprange deterministic`.
+	Census map[string]*Census
+}
+
+type Census struct {
+	Pkg      string
+	Props    []string
+	Unproved map[string]int
+	File     string
 }
 
 type Macro struct {
@@ -267,6 +277,34 @@ func (sp *Specs) loadSpecFile(path, pkg string) error {
 				}
 				name, srt := splitWord(r2)
 				sp.Ghosts[name] = &GhostVar{Name: name, Sort: Sort(strings.TrimSpace(srt)), SpecOnly: specOnly}
+			case "maprange-census":
+				// maprange-census property Cxx: f=n g=m ...   (functions of this package that range over a map and
+				// are NOT proved independent of the iteration order, with their number of map ranges)
+				r2 := strings.TrimSpace(rest)
+				if !strings.HasPrefix(r2, "property ") {
+					return fail(l, "maprange-census property Cxx: name=count ...")
+				}
+				r2 = strings.TrimPrefix(r2, "property ")
+				i := strings.Index(r2, ":")
+				if i < 0 {
+					return fail(l, "maprange-census: ':' expected")
+				}
+				cs := &Census{Pkg: pkg, Props: strings.Fields(r2[:i]), Unproved: map[string]int{}, File: l.pos}
+				for _, f := range strings.Fields(r2[i+1:]) {
+					j := strings.LastIndex(f, "=")
+					if j < 0 {
+						return fail(l, "maprange-census: name=count expected, got %q", f)
+					}
+					n, err := strconv.Atoi(f[j+1:])
+					if err != nil {
+						return fail(l, "maprange-census: %v", err)
+					}
+					cs.Unproved[f[:j]] = n
+				}
+				if sp.Census == nil {
+					sp.Census = map[string]*Census{}
+				}
+				sp.Census[pkg] = cs
 			case "globalfact":
 				// globalfact <import path>.<Var> <predicate>: every value read from that package-level
 				// variable of a dependency satisfies the (uninterpreted) predicate -- an assumption
